@@ -36,6 +36,19 @@ def gen_literals(quick, seed):
                 add(kind, B(pre + e + post), "escape form in context")
     for e1, e2 in itertools.product(ESCAPES[:12] + ESCAPES[14:20], repeat=2):
         add("dq", B(e1 + e2), "two escapes")
+    # raw control / blank characters other than the line feed are ordinary content of a quoted literal (CR, tab, vertical tab, form
+    # feed, NEL, line separator), alone and next to an escape
+    for ch in ["\r", "\t", "\v", "\f", "\u0085", "\u2028", "\u00a0", "\x7f", "\x1b"]:
+        for pre, post in [("", ""), ("a", "b"), ("\\n", ""), ("", "\\t"), ("x", "\\x41y"), ("\r", "\r")]:
+            for kind in ("dq", "sq"):
+                add(kind, B(pre + ch + post), "raw control / blank characters inside a quoted literal")
+    # characters that look special to a decoder FOLLOWED or preceded by an escape (the decoder's fast path ends at the first backslash)
+    for ch in ["\ufffd", "\ufeff", "\U0010ffff", "\u0080"]:
+        for e in ["\\n", "\\x41", "\\u00e9", "\\\\", "\\101"]:
+            for kind in ("dq", "sq"):
+                add(kind, B(ch + e), "special but valid character followed by an escape")
+                add(kind, B(e + ch), "special but valid character after an escape")
+                add(kind, B("a" + ch + "b" + e + ch), "special but valid character around an escape")
     # characters that are valid text but look special to a decoder: U+FFFD (what decoders return for garbage), the byte-order mark,
     # a line separator, a 4-byte rune, the last code point - in every kind of literal
     for ch in ["\ufffd", "\ufeff", "\u2028", "\U0001f600", "\U0010ffff", "\u0080", "\u07ff", "\u0800", "\uffff", "\ud7ff", "\ue000"]:
